@@ -88,6 +88,8 @@ def _configs():
         "log(0)", "log10(0)", "sqrt(0-1)", "log(0-1)+1",
         # truncated number literals (lexer flags must not survive) and expressions that start with a sign
         "3*1e", "2e", "-(2+3)", "+sin(0)", "- 4*2",
+        # blank expressions and blank arguments (nothing tokenized: nothing of an earlier call may be returned)
+        "", "   ", "pow(3, )", "sin( )", "( )",
         # the same call interface with an Expression OBJECT instead of a string ("E:" prefix)
         "E:4*5", "E:1+(2", "E:2*(3+4)", "E:-(1+1)",
     ]
@@ -153,6 +155,20 @@ def _configs():
         def __repr__(self):
             return "Length(%r %s)" % (self.value, self.unit)
 
+    class Flag(AtomBase):
+        def __init__(self, value):
+            self.value = (value.strip() == "true") if isinstance(value, str) else bool(value)
+
+    def factory(value):
+        """an atom FACTORY (a function, not a class) that returns atoms of two different types"""
+        if isinstance(value, str) and value.strip() in ("true", "false"):
+            return Flag(value)
+        return AtomBase(value)
+
+    cfg["atom_factory"] = (lambda: ExpressionSolver(factory), [
+        "true", "false", "1+2", "2*3", "true && false", "-3 + 5", "2 * -3", "(1+2)*3", "1 < 2", "",
+        "x", "1+", "(true", "true +", "1+x",
+    ])
     ops4 = {"add": OperatorAdd, "par": OperatorPar}
     steps4 = [dict(operators=["par"], otype=Otype.ARGS), dict(operators=["add"], otype=Otype.BINARY)]
     cfg["mutating_atom"] = (lambda: ExpressionSolver(Length, dict(ops4), [dict(s) for s in steps4]), [
